@@ -186,6 +186,14 @@ def features(tpl, L, I):
         f.add('last_leaf_1')
     if any(len(x) == L for x in lv):
         f.add('full_leaf')
+    # ragged neighbours: walking across a leaf boundary where the two leaves differ in length
+    for x, y in zip(lv, lv[1:]):
+        if len(x) > len(y):
+            f.add('leaf_pair_shrinks')
+        elif len(x) < len(y):
+            f.add('leaf_pair_grows')
+    if len(lv) >= 3 and len(lv[1]) == 1 and len(lv[0]) > 1 and len(lv[2]) > 1:
+        f.add('one_key_leaf_between_bigger')
     if all(len(x) == L for x in lv):
         f.add('all_leaves_full')
     nchild = (len(tpl[1]) + 1) // 2
